@@ -20,7 +20,7 @@ import shutil
 
 import numpy as np
 
-from .common import make_tree, random_sorted_table, scratch_dir, sorted_parent_tables
+from .common import MAG_COORDS, MAG_IDS, MAG_RADII, MAG_TYPES, make_tree, random_sorted_table, scratch_dir, sorted_parent_tables
 
 COMMENT_POOL = ["", " ", "x", "  x ", "# x", "id type", "a b"]
 HEADER_COLS = "id type x y z r pid"
@@ -32,8 +32,8 @@ FULL_POOL = COMMENT_POOL + WRITER_LIKE
 OFFSETS = [0, 1, 2, 7, 10**6]
 READ_SRC = ["path", "text", "bytes"]
 WRITE_VIA = ["string", "file"]
-TYPE_POOL = [0, 1, 2, 3, 4, 5, 6, 7, 11, 255]
-CORNERS_QUICK = [0.0, -0.0, 1e-5, -1e-5, 0.00005, -0.00005, 0.00015, 123456.789, -123456.789, 1.0, -2.5, 0.12345, 9999.99995, 16777216.0, 0.99996]
+TYPE_POOL = [0, 1, 2, 3, 4, 5, 6, 7, 11, 255] + [t for t in MAG_TYPES if t not in (0, 7, 255)]  # magnitudes: bounded/common.py
+CORNERS_QUICK = [0.0, -0.0, 1e-5, -1e-5, 0.00005, -0.00005, 0.00015, 123456.789, -123456.789, 1.0, -2.5, 0.12345, 9999.99995, 16777216.0, 0.99996] + MAG_COORDS + MAG_RADII
 CORNERS_THOROUGH = CORNERS_QUICK + [1e30, -1e30, 3.4028234e38, 1e-30, 33554432.5, 0.30000001]
 SOURCE_OPTS = [False, True, "custom.swc"]
 # comments that start like the writer's column header (plain, with extra columns, with a suffix, with leading blanks, upper case = not header-like for the reader)
@@ -497,6 +497,31 @@ def run(ctx):
                     go("float-corners", spec)
                     k += 1
 
+        # (4b) magnitudes: every type of the magnitude pool on the root / an inner node / a leaf x every read source, and every large id
+        # offset x write route x read source, on coordinates around 1e5 with four decimals and tiny / huge radii
+        shapes = [(-1,), (-1, 0), (-1, 0, 0, 1), (-1, 0, 1, 2, 2)]
+        for ti, T in enumerate(MAG_TYPES):
+            for si, src in enumerate(READ_SRC):
+                pid = shapes[(ti + si) % len(shapes)]
+                n = len(pid)
+                types = [MAG_TYPES[(ti + 5 * i) % len(MAG_TYPES)] if i % 2 else 1 + (i % 4) for i in range(n)]
+                types[(ti + si) % n] = T
+                xyz = [[MAG_COORDS[(ti + i + j) % len(MAG_COORDS)] if (i + j) % 2 == 0 else 0.5 * i - 0.25 * j for j in range(3)] for i in range(n)]
+                r = [MAG_RADII[(ti + si + i) % len(MAG_RADII)] for i in range(n)]
+                spec = dict(pid=list(pid), type=types, xyz=xyz, r=r, off=(OFFSETS + MAG_IDS)[(ti + si) % (len(OFFSETS) + len(MAG_IDS))], via=WRITE_VIA[(ti + si) % 2], src=src,
+                            source=SOURCE_OPTS[ti % 3], comments=[COMMENT_POOL[ti % 7]] if ti % 2 else [], comments_flag=True, tree_source="")
+                go("magnitudes", spec)
+                k += 1
+        for oi, off in enumerate(MAG_IDS):
+            for via, src in itertools.product(WRITE_VIA, READ_SRC):
+                pid = shapes[(oi + k) % len(shapes)]
+                n = len(pid)
+                xyz, r = _coords_for(n, k, MAG_COORDS + MAG_RADII)
+                spec = dict(pid=list(pid), type=[TYPE_POOL[(k + 7 * i) % len(TYPE_POOL)] for i in range(n)], xyz=xyz, r=r, off=off, via=via, src=src,
+                            source=False, comments=[], comments_flag=True, tree_source="")
+                go("magnitudes", spec)
+                k += 1
+
         # (5) seeded random tail: bigger trees, random floats of many magnitudes
         for _ in range(4000 if thorough else 800):
             n = rng.randint(1, 12 if thorough else 9)
@@ -506,7 +531,7 @@ def run(ctx):
             r = [rng.random() * rng.choice(mags[:4]) for _ in range(n)]
             types = [1] + [rng.choice(TYPE_POOL) for _ in range(n - 1)]
             nc = rng.randint(0, 3)
-            spec = dict(pid=list(pid), type=types, xyz=xyz, r=r, off=rng.choice(OFFSETS + [3, 100, 65536]), via=rng.choice(WRITE_VIA), src=rng.choice(READ_SRC),
+            spec = dict(pid=list(pid), type=types, xyz=xyz, r=r, off=rng.choice(OFFSETS + [3, 100, 65536] + MAG_IDS), via=rng.choice(WRITE_VIA), src=rng.choice(READ_SRC),
                         source=rng.choice(SOURCE_OPTS), comments=[rng.choice(FULL_POOL if rng.random() < 0.3 else COMMENT_POOL) for _ in range(nc)], comments_flag=rng.random() < 0.9,
                         tree_source=rng.choice(["", "a/b.swc"]))
             go("random", spec)
@@ -526,7 +551,8 @@ def run(ctx):
 
         rep.flush(ctx)
         ctx.rule(f"all sorted parent tables with <= {nmax} nodes x id offsets {OFFSETS} x read sources {READ_SRC} x write via to_swc() string / to_swc(fname) ("
-                 f"source header False/True/custom, comments from {COMMENT_POOL!r}, types from {TYPE_POOL}); all unsorted numberings with root 0 up to "
+                 f"source header False/True/custom, comments from {COMMENT_POOL!r}, types from {TYPE_POOL}); magnitudes: every type of {MAG_TYPES} on root / inner node / leaf x read "
+                 f"sources and id offsets {MAG_IDS} x write routes x read sources, coordinates {MAG_COORDS}, radii {MAG_RADII}; all unsorted numberings with root 0 up to "
                  f"{5 if thorough else 4} nodes; all comment lists of length <= {3 if thorough else 2} x 3 source-header settings; comments that look like the "
                  f"writer's own output {WRITER_LIKE!r} alone and in pairs x 3 source-header settings; comments that start like the column header {HEADER_LIKES!r} in every "
                  f"position of lists of <= 3 (first, middle, last, repeated, adjacent) mixed with plain ones; HISTORIES write -> read -> write again -> read with every "
